@@ -49,3 +49,24 @@ Theorem C04_functional_meaning_is_write : forall n buf pos vals,
   cop_fwd Z 0%Z 1%Z Z.add Z.mul [buf; vals] (update_cop n pos) = write buf pos vals.
 Proof. exact update_cop_is_write. Qed.
 Print Assumptions C04_functional_meaning_is_write.
+
+(* ---------------------------------------------------------------------------------------------------------------------
+   Pointer level (Model/Heap.v: the transcription of Tensor._op / Tensor._in_place_op / DuplicatingGraph, tied to /repo by the
+   object-graph correspondence of harness/heapcorr.py).  Within one graph epoch (statements: new leaf, non-view operation, view
+   operation, in-place operation -- succeeding or raising) the heap invariant [wf] of Proofs/HeapP2.v is preserved, and the
+   in-place machinery never gets stuck on it (no KeyError / AssertionError / DisconnectedView path is reachable). *)
+From MG Require Model.Heap.
+From MG Require Import Proofs.HeapP1 Proofs.HeapWfb Proofs.HeapP2 Proofs.HeapP21.
+
+Theorem C04_heap_invariant_preserved : forall h s o, wf h -> stmt_ok h s -> Heap.step h s = Some o -> wf (Heap.heap_of o).
+Proof. exact wf_step. Qed.
+Print Assumptions C04_heap_invariant_preserved.
+
+Theorem C04_heap_invariant_every_reachable_heap : forall ss h', run_ok Heap.empty_heap ss -> Heap.run Heap.empty_heap ss = Some h' -> wf h'.
+Proof. exact wf_reachable. Qed.
+Print Assumptions C04_heap_invariant_every_reachable_heap.
+
+Theorem C04_heap_inplace_never_stuck : forall h m k inputs masked fails tm0, wf h -> Heap.getT h m = Some tm0 ->
+  (forall i, In i inputs -> Heap.getT h i <> None) -> exists out, Heap.inplace h m k inputs masked fails = Some out.
+Proof. exact inplace_not_stuck. Qed.
+Print Assumptions C04_heap_inplace_never_stuck.
